@@ -80,6 +80,15 @@ type incSite struct {
 	scp           string
 }
 
+// process-local mutable state: a field of a struct declared in a keeper / precompile package, or a package-level variable of
+// a consensus package, whose type (looked into up to three levels of the repository's own struct types) holds a Go map, a
+// channel, or a sync / atomic / cache object — state that lives in this process and not in the store.
+type procState struct {
+	pkg, owner, field, typ, kind string
+	written                      bool // package-level variable: assigned / index-assigned / Store()d inside some function body
+	scp                          string
+}
+
 type walker struct {
 	p        *packages.Package
 	rel      string
@@ -95,6 +104,7 @@ type walker struct {
 	file     string
 	parents  []ast.Node
 	teleArgs map[ast.Node]bool
+	decls    map[types.Object]*ast.FuncDecl
 }
 
 func recvName(fd *ast.FuncDecl) string {
@@ -198,6 +208,45 @@ func (w *walker) calleeName(fun ast.Expr) string {
 // conversions are not calls; delete/close/panic/print are kept).
 func (w *walker) calls(n ast.Node) []string {
 	set := map[string]bool{}
+	w.collectCalls(n, set, map[types.Object]bool{}, 0)
+	var out []string
+	for k := range set {
+		out = append(out, k)
+	}
+	sort.Strings(out)
+	return out
+}
+
+// calleeDecl resolves a call to a function or method DECLARED IN THIS PACKAGE (helpers extracted from a loop body)
+func (w *walker) calleeDecl(fun ast.Expr) (types.Object, *ast.FuncDecl) {
+	var id *ast.Ident
+	switch x := fun.(type) {
+	case *ast.Ident:
+		id = x
+	case *ast.SelectorExpr:
+		id = x.Sel
+	case *ast.IndexExpr:
+		return w.calleeDecl(x.X)
+	case *ast.ParenExpr:
+		return w.calleeDecl(x.X)
+	}
+	if id == nil {
+		return nil, nil
+	}
+	obj := w.p.TypesInfo.Uses[id]
+	fn, ok := obj.(*types.Func)
+	if !ok || fn.Pkg() != w.p.Types {
+		return nil, nil
+	}
+	if o := fn.Origin(); o != nil {
+		fn = o
+	}
+	return fn, w.decls[fn]
+}
+
+// collectCalls: the callees of n; a call to a helper of the same package is replaced by the callees of the helper's body
+// (transitively), so extracting part of a loop body into a helper does not change the fact.
+func (w *walker) collectCalls(n ast.Node, set map[string]bool, visited map[types.Object]bool, depth int) {
 	ast.Inspect(n, func(x ast.Node) bool {
 		c, ok := x.(*ast.CallExpr)
 		if !ok {
@@ -218,6 +267,16 @@ func (w *walker) calls(n ast.Node) []string {
 			(sel.Sel.Name == "Add" || sel.Sel.Name == "Remove" || sel.Sel.Name == "AddMulti" || sel.Sel.Name == "Has") {
 			return true // set operations are classified as map writes / lookups, not as calls
 		}
+		if nm := w.calleeName(c.Fun); strings.Contains(nm, ".Logger") || strings.HasPrefix(nm, "log.") {
+			return false // logging (and what it formats) is not an effect on consensus state
+		}
+		if obj, decl := w.calleeDecl(c.Fun); decl != nil && decl.Body != nil && depth < 4 {
+			if !visited[obj] {
+				visited[obj] = true
+				w.collectCalls(decl.Body, set, visited, depth+1)
+			}
+			return true
+		}
 		name := w.calleeName(c.Fun)
 		if strings.Contains(name, ".Logger") || strings.HasPrefix(name, "log.") {
 			return true // logging is not an effect on consensus state
@@ -225,12 +284,6 @@ func (w *walker) calls(n ast.Node) []string {
 		set[name] = true
 		return true
 	})
-	var out []string
-	for k := range set {
-		out = append(out, k)
-	}
-	sort.Strings(out)
-	return out
 }
 
 type leafKinds struct {
@@ -743,6 +796,187 @@ func (w *walker) addInc(kind string, tele bool) {
 	*w.incs = append(*w.incs, incSite{pkg: w.rel, file: w.file, fn: w.fnKey, ord: ord, kind: kind, telemetry: tele, scp: scopeOf(w.rel)})
 }
 
+const repoModule = "github.com/NibiruChain/nibiru"
+
+// kindOfState classifies a type: "" = plain value / store handle, else PSMap | PSChan | PSSync
+func kindOfState(t types.Type, depth int, seen map[types.Type]bool) string {
+	if t == nil || depth > 3 || seen[t] {
+		return ""
+	}
+	seen[t] = true
+	switch x := t.(type) {
+	case *types.Pointer:
+		return kindOfState(x.Elem(), depth, seen)
+	case *types.Map:
+		return "PSMap"
+	case *types.Chan:
+		return "PSChan"
+	case *types.Named:
+		o := x.Obj()
+		if o != nil && o.Pkg() != nil {
+			p := o.Pkg().Path()
+			if p == "sync" || p == "sync/atomic" || strings.Contains(strings.ToLower(o.Name()), "cache") && !strings.HasPrefix(p, "github.com/cosmos/cosmos-sdk/store") {
+				return "PSSync"
+			}
+			if strings.HasPrefix(p, repoModule) {
+				rel := strings.TrimPrefix(strings.TrimPrefix(p, repoModule), "/")
+				if i := strings.Index(rel, "/"); strings.HasPrefix(rel, "v") && i > 0 {
+					rel = rel[i+1:] // drop the /v2 major-version element
+				}
+				if singletonPkg(rel) {
+					return "" // structs of keeper / precompile packages are inventoried on their own
+				}
+			}
+			if !strings.HasPrefix(p, repoModule) {
+				// foreign named types are opaque (collections.Map, keepers of other modules, …) unless they ARE maps
+				if _, ok := x.Underlying().(*types.Map); ok {
+					return "PSMap"
+				}
+				return ""
+			}
+		}
+		return kindOfState(x.Underlying(), depth, seen)
+	case *types.Struct:
+		for i := 0; i < x.NumFields(); i++ {
+			if k := kindOfState(x.Field(i).Type(), depth+1, seen); k != "" {
+				return k
+			}
+		}
+	}
+	return ""
+}
+
+// long-lived objects shared by block execution and request handling: keepers, the app, precompile objects, msg/query servers
+func singletonStruct(name string) bool {
+	l := strings.ToLower(name)
+	return strings.Contains(l, "keeper") || strings.Contains(l, "app") || strings.HasPrefix(l, "precompile") ||
+		strings.HasSuffix(l, "server") || strings.HasSuffix(l, "querier") || strings.HasSuffix(l, "state")
+}
+
+func singletonPkg(rel string) bool {
+	return strings.HasSuffix(rel, "/keeper") || rel == "x/evm/precompile" || rel == "app" || rel == "app/keepers"
+}
+
+func collectProcState(p *packages.Package, repo string, out *[]procState) {
+	written := map[types.Object]bool{}
+	for _, f := range p.Syntax {
+		for _, decl := range f.Decls {
+			fd, ok := decl.(*ast.FuncDecl)
+			if !ok || fd.Body == nil || (fd.Recv == nil && fd.Name.Name == "init") {
+				continue // package initialisation is not a mutation at run time
+			}
+			ast.Inspect(fd.Body, func(n ast.Node) bool {
+				mark := func(e ast.Expr) {
+					for {
+						switch x := e.(type) {
+						case *ast.IndexExpr:
+							e = x.X
+							continue
+						case *ast.SelectorExpr:
+							e = x.X
+							continue
+						case *ast.StarExpr:
+							e = x.X
+							continue
+						case *ast.ParenExpr:
+							e = x.X
+							continue
+						case *ast.Ident:
+							if o := p.TypesInfo.Uses[x]; o != nil {
+								written[o] = true
+							}
+						}
+						return
+					}
+				}
+				switch x := n.(type) {
+				case *ast.AssignStmt:
+					if x.Tok != token.DEFINE {
+						for _, l := range x.Lhs {
+							mark(l)
+						}
+					}
+				case *ast.IncDecStmt:
+					mark(x.X)
+				case *ast.CallExpr:
+					if sel, ok := x.Fun.(*ast.SelectorExpr); ok {
+						switch sel.Sel.Name {
+						case "Store", "Delete", "LoadOrStore", "Swap", "CompareAndSwap", "Add", "Set", "Lock":
+							mark(sel.X)
+						}
+					}
+					if id, ok := x.Fun.(*ast.Ident); ok && id.Name == "delete" && len(x.Args) > 0 {
+						mark(x.Args[0])
+					}
+				}
+				return true
+			})
+		}
+	}
+	for _, f := range p.Syntax {
+		fname := p.Fset.Position(f.Pos()).Filename
+		base := filepath.Base(fname)
+		if strings.HasSuffix(base, "_test.go") || strings.Contains(base, ".pb.") || strings.HasPrefix(base, "test_util") {
+			continue
+		}
+		rel, err := filepath.Rel(repo, filepath.Dir(fname))
+		if err != nil || strings.HasPrefix(rel, "..") {
+			continue
+		}
+		rel = filepath.ToSlash(rel)
+		for _, d := range f.Decls {
+			gd, ok := d.(*ast.GenDecl)
+			if !ok {
+				continue
+			}
+			for _, sp := range gd.Specs {
+				switch x := sp.(type) {
+				case *ast.TypeSpec:
+					st, ok := x.Type.(*ast.StructType)
+					if !ok || !singletonPkg(rel) || !singletonStruct(x.Name.Name) {
+						continue
+					}
+					for _, fld := range st.Fields.List {
+						t := p.TypesInfo.TypeOf(fld.Type)
+						k := kindOfState(t, 0, map[types.Type]bool{})
+						if k == "" {
+							continue
+						}
+						names := []string{"<embedded>"}
+						if len(fld.Names) > 0 {
+							names = nil
+							for _, n := range fld.Names {
+								names = append(names, n.Name)
+							}
+						}
+						for _, n := range names {
+							*out = append(*out, procState{pkg: rel, owner: x.Name.Name, field: n,
+								typ: types.TypeString(t, func(q *types.Package) string { return filepath.Base(q.Path()) }), kind: k, scp: scopeOf(rel)})
+						}
+					}
+				case *ast.ValueSpec:
+					if gd.Tok != token.VAR {
+						continue
+					}
+					for _, n := range x.Names {
+						o := p.TypesInfo.Defs[n]
+						if o == nil || n.Name == "_" {
+							continue
+						}
+						k := kindOfState(o.Type(), 0, map[types.Type]bool{})
+						if k == "" {
+							continue
+						}
+						*out = append(*out, procState{pkg: rel, owner: "<package>", field: n.Name,
+							typ: types.TypeString(o.Type(), func(q *types.Package) string { return filepath.Base(q.Path()) }), kind: k,
+							written: written[o], scp: scopeOf(rel)})
+					}
+				}
+			}
+		}
+	}
+}
+
 func main() {
 	if len(os.Args) < 2 {
 		fatal("usage: gen_c01 <repo>")
@@ -803,6 +1037,7 @@ func main() {
 	var sites []mapSite
 	var uses []tsUse
 	var incs []incSite
+	var pstate []procState
 	nfiles := 0
 	for _, p := range pkgs {
 		if len(p.Errors) > 0 {
@@ -811,7 +1046,18 @@ func main() {
 		if p.TypesInfo == nil {
 			fatal("no type info for", p.PkgPath)
 		}
-		w := &walker{p: p, repo: repo, sites: &sites, uses: &uses, incs: &incs, ordMap: map[string]int{}, ordTs: map[string]int{}, ordInc: map[string]int{}}
+		collectProcState(p, repo, &pstate)
+		decls := map[types.Object]*ast.FuncDecl{}
+		for _, f := range p.Syntax {
+			for _, d := range f.Decls {
+				if fd, ok := d.(*ast.FuncDecl); ok {
+					if o := p.TypesInfo.Defs[fd.Name]; o != nil {
+						decls[o] = fd
+					}
+				}
+			}
+		}
+		w := &walker{decls: decls, p: p, repo: repo, sites: &sites, uses: &uses, incs: &incs, ordMap: map[string]int{}, ordTs: map[string]int{}, ordInc: map[string]int{}}
 		files := append([]*ast.File{}, p.Syntax...)
 		sort.Slice(files, func(i, j int) bool {
 			return p.Fset.Position(files[i].Pos()).Filename < p.Fset.Position(files[j].Pos()).Filename
@@ -890,6 +1136,22 @@ func main() {
 			sep = ""
 		}
 		fmt.Printf("  mk_ts %s %s %d %s %s%s\n", coqString(u.pkg), coqString(u.fn), u.ord, u.kind, u.scp, sep)
+	}
+	fmt.Println("].")
+	sort.SliceStable(pstate, func(i, j int) bool {
+		return less([]string{pstate[i].pkg, pstate[i].owner, pstate[i].field}, []string{pstate[j].pkg, pstate[j].owner, pstate[j].field})
+	})
+	fmt.Println("Definition process_state : list pstate := [")
+	for i, c := range pstate {
+		sep := ";"
+		if i == len(pstate)-1 {
+			sep = ""
+		}
+		wr := "false"
+		if c.written {
+			wr = "true"
+		}
+		fmt.Printf("  mk_ps %s %s %s %s %s %s %s%s\n", coqString(c.pkg), coqString(c.owner), coqString(c.field), coqString(c.typ), c.kind, wr, c.scp, sep)
 	}
 	fmt.Println("].")
 	fmt.Println("Definition incidental_sites : list inc_site := [")
